@@ -339,7 +339,10 @@ def run_case(case):
     env_cols = os.environ.get("COLUMNS")
     os.environ["COLUMNS"] = "80"
     try:
-        s = Subject(case["real"])
+        try:
+            s = Subject(case["real"])
+        except Exception as e:  # noqa: an object that cannot be built is an observation
+            return [dict(base_event("new"), kind=case["real"]["kind"], res=type(e).__name__)]
         evs = [s.new_event()]
         for op in case["ops"]:
             k = op["op"]
@@ -419,8 +422,22 @@ def usable(reals, skipped):
             s = Subject(r)
             ok.append((r, s.dec))
         except Exception as e:  # noqa
-            skipped.append({"real": r, "error": type(e).__name__ + ": " + str(e)[:80]})
+            skipped.append({"real": r, "cls": type(e).__name__, "error": type(e).__name__ + ": " + str(e)[:80]})
     return ok
+
+
+def expected_unconstructible(real):
+    """objects the pinned library cannot build (side observations, see the notes): NullIO().section() (IO.section calls
+    self.__class__(input, output, error_output)); an Output on an ANSI stream with a NullFormatter (no disable_ansi) -
+    which a NullIO gets when its streams are exchanged for ANSI-capable ones"""
+    if real.get("cls") == "NullIO" and (real["kind"] == "iosec" or (real.get("ansi") and real["fmt"] == "keep")):
+        return True
+    return real["fmt"] == "null" and bool(real.get("ansi"))
+
+
+def broken_objects(skipped):
+    """every other description that cannot be built is an observation: a trace whose 'new' event carries the exception"""
+    return [s for s in skipped if not expected_unconstructible(s["real"])]
 
 
 # ------------------------------------------------------------------ comparing with TLC behaviours
@@ -498,9 +515,10 @@ def run(ctx):
     for kind in ("output", "section", "io", "iosec", "sections"):
         for r, dec in usable(realizations(kind, not quick), skipped):
             reals.setdefault((kind, dec), []).append(r)
+    broken = broken_objects(skipped)
     for kind in ("output", "section", "io", "iosec", "sections"):
         for dec in (False, True):
-            if not reals.get((kind, dec)):
+            if not reals.get((kind, dec)) and not broken:
                 raise T.MachineryError("no realization of kind %s decorated=%s" % (kind, dec))
     ctx.extra["realizations"] = {"%s/%s" % k: len(v) for k, v in sorted(reals.items())}
     ctx.extra["realizations_not_constructible"] = skipped[:20]
@@ -510,7 +528,9 @@ def run(ctx):
     def replay_behaviours(recs, per):
         n = 0
         for nb, beh in enumerate(recs):
-            rs = reals[(beh["kind"], beh["dec"])]
+            rs = reals.get((beh["kind"], beh["dec"]))
+            if not rs:  # nothing of this kind can be built on this tree: reported through `broken`
+                continue
             ops = ops_of(beh)
             chosen = rs if per is None else [rs[(nb + j) % len(rs)] for j in range(min(per, len(rs)))]
             for r in chosen:
@@ -561,6 +581,9 @@ def run(ctx):
 
     # ---- code -> spec: every entry found by reflection x quiet x verbosity x flag word, fresh object each time
     traces, cases = list(mism_t), list(mism_c)
+    for b in broken:
+        traces.append([dict(base_event("new"), kind=b["real"]["kind"], res=b["cls"])])
+        cases.append({"real": b["real"], "ops": []})
     found = {}
     for (kind, dec), rs in sorted(reals.items()):
         if kind == "sections":
@@ -623,7 +646,7 @@ def run(ctx):
 
     # ---- code -> spec: seeded random sequences
     allr = [(k, r) for k, rs in sorted(reals.items()) for r in rs]
-    n = 400 if quick else 6000
+    n = (400 if quick else 6000) if allr else 0
     for i in range(n):
         (kind, dec), r = allr[ctx.rng.randrange(len(allr))]
         if kind == "sections":
